@@ -5,6 +5,6 @@ d, caught, needs, notes = sys.argv[1:5]
 p = os.path.join("/verif/seeded", d)
 prop = d.split("-")[0]
 meta = {"property": prop, "breaks": needs.split("|")[0], "needs_to_manifest": needs,
-        "confirmed": "tools/confirm_seed.sh %s %s: unmodified suite passes with the change (2256 passed), demo.py exits 0 without it and non-zero with it" % (prop, d.split("-")[1]),
+        "confirmed": "tools/confirm_seed.sh / confirm_seed2.sh %s %s: unmodified suite passes with the change (2256 passed), demo.py exits 0 without it and non-zero with it" % (prop, d.split("-")[1]),
         "ran": "tools/try_mutation.sh seeded/%s/patch.diff %s" % (d, prop), "caught": caught, "notes": notes}
 json.dump(meta, open(os.path.join(p, "meta.json"), "w"), indent=1)
